@@ -251,7 +251,7 @@ func (c *Check) moduleServiceProviders(rule string, ms *Func, issue *Event) {
 				okS, gotS := false, "no context is created on the path"
 				if create != nil && superIdx < len(create.CI.args) {
 					gotS = shortTerm(create.CI.args[superIdx])
-					okS = create.CI.args[superIdx].IsAt("#false")
+					okS = isBoolConst(create.CI.args[superIdx], false)
 				}
 				c.req(okS, rule, unitConstruct(h, "module-context-not-super"), call.Pos,
 					"the context handed to the module-service function (which charges without testing the mode) is created with SuperMode = false: "+gotS)
@@ -261,7 +261,7 @@ func (c *Check) moduleServiceProviders(rule string, ms *Func, issue *Event) {
 				okS, gotS := false, "no context is created on the path"
 				if create != nil && stateIdx < len(create.CI.args) {
 					gotS = shortTerm(create.CI.args[stateIdx])
-					okS = create.CI.args[stateIdx].IsAt("#types.RUNNING")
+					okS = sameConstAs(create.CI.args[stateIdx], c.constTerm("types.RUNNING"))
 				}
 				c.req(okS, rule, unitConstruct(h, "module-context-running"), call.Pos,
 					"the context handed to the module-service function (which issues a batch without testing the state) is created RUNNING: "+gotS)
